@@ -112,6 +112,10 @@ Proof.
   apply created_keys_occur in Hk. destruct Hk as [Hk _]. rewrite forallb_forall in H. exact (H _ Hk).
 Qed.
 
+Theorem dfxp_inline_regions_percent : forall c s s', w_rel c = true -> dfxp_transform_inline c s = Ok s' ->
+  forall k id, In (k, id) (region_map (written_layouts s')) -> all_pct k = true.
+Proof. intros c s s' Hr H. apply regions_of_pct_layouts. exact (proj2 (dfxp_inline_writes_percentages c s s' Hr H)). Qed.
+
 Theorem dfxp_regions_percent : forall c s s', w_rel c = true -> dfxp_transform c s = Ok s' ->
   forall k id, In (k, id) (region_map (written_layouts s')) -> all_pct k = true.
 Proof. intros c s s' Hr H. apply regions_of_pct_layouts. eapply dfxp_writes_percentages; eauto. Qed.
